@@ -174,6 +174,69 @@ def run(tier):
                         c3["raised"], c3["exc"] = True, type(e).__name__ + ":" + str(e)[:80]
                     cases.append(c3)
                     ctx.case(("extend-grouped", json.dumps(shp), replace))
+    # descriptors whose IDENTIFIERS coincide (same name, same concatenation of field names and types) merged with the same
+    # partner one after the other: whatever is remembered about the first merge must not answer the second
+    from flow.record import RecordDescriptor as _RD
+
+    def mk(D, k):
+        vals = {}
+        for t, n in D.get_field_tuples():
+            vals[n] = (f"s{k}{n}" if t in ("string", "wstring") else 1000 * k + len(n))
+        rec = D(**vals, _generated=gen.GEN, _source=f"src{k}")
+        for t, n in D.get_field_tuples():
+            W.ids[W.key(getattr(rec, n))] = f"r{k}.{n}"
+        return rec
+
+    pairs = [(_RD("t/col", [("string", "a"), ("string", "b")]), _RD("t/col", [("string", "astringb")])),
+             (_RD("t/note", [("wstring", "x")]), _RD("t/note", [("string", "xw")])),
+             (_RD("t/col3", [("varint", "n"), ("string", "s")]), _RD("t/col3", [("varint", "nvarints")]))]
+    partners = [_RD("t/partner", [("varint", "p1")]), _RD("t/partner2", [("string", "a"), ("varint", "p2")])]
+    kk = 20
+    for A_, B_ in pairs:
+        for P_ in partners:
+            for first, second in ((A_, B_), (B_, A_)):
+                for replace in (False, True):
+                    for pos in ("colliding-first", "colliding-last"):
+                        for Dcur in (first, second):         # the second call is the one a stale memory would answer
+                            kk += 2
+                            rc, rp = mk(Dcur, kk), mk(P_, kk + 1)
+                            recs = [rc, rp] if pos == "colliding-first" else [rp, rc]
+                            c = base_case("extend", [W.project(r) for r in recs], replace=replace)
+                            try:
+                                c["res"] = [W.project(extend_record(recs[0], recs[1:], replace=replace))]
+                            except Exception as e:
+                                c["raised"], c["exc"] = True, type(e).__name__ + ":" + str(e)[:80]
+                            cases.append(c)
+                            ctx.case(("extend-coinciding-identifiers", A_.name, P_.name, first is A_, replace, pos, Dcur is first))
+    # composition while an ignore-for-comparison setting is in force: that setting is about == and hash, never about which
+    # record's value wins
+    from flow.record.base import set_ignored_fields_for_comparison as _set_ign
+
+    for ign in ({"b"}, {"a"}, {"a", "b"}, {"_source"}):
+        for replace in (False, True):
+            for nrec in (2, 3):
+                kk += 5
+                r1 = W.build(kk, [("a", "string"), ("b", "varint")], name="t/ign")
+                others = []
+                for j in range(1, nrec):
+                    donor = W.build(kk + j, [("a", "string"), ("b", "varint")], name="t/ign")
+                    changes = {n: getattr(donor, n) for n in ("a", "b") if n in ign}
+                    if "_source" in ign:
+                        changes["_source"] = donor._source
+                    others.append(r1._replace(**changes))          # differs from r1 in the ignored fields ONLY
+                recs = [r1] + others
+                c = base_case("extend", [W.project(r) for r in recs], replace=replace)
+                _set_ign(ign)
+                try:
+                    res = extend_record(recs[0], recs[1:], replace=replace)
+                    c["res"] = [W.project(res)]
+                    c["name_ok"] = ("_source" not in ign) or res._source == (recs[-1] if replace else recs[0])._source
+                except Exception as e:
+                    c["raised"], c["exc"] = True, type(e).__name__ + ":" + str(e)[:80]
+                finally:
+                    _set_ign(set())
+                cases.append(c)
+                ctx.case(("extend-under-ignore-setting", tuple(sorted(ign)), replace, nrec))
     # timestamp expansion: every ordered choice of <= 3 names x types
     ts_shapes = []
     for nf in (1, 2, 3):
